@@ -264,6 +264,47 @@ def check(ctx: Ctx) -> list[RuleResult]:
     if len(dec_fields) != 6 or len(enc_shifts) != 6:
         raise AnalysisError(f"dts codec: found {len(dec_fields)} decoder fields / {len(enc_shifts)} encoder shifts")
     limits = {"year": 99, "month": 12, "day": 31, "hour": 23, "minute": 59, "second": 59}
+    # the encoder's image per field: the value shifted into place, as an interval over the calendar ranges of timetuple(); it has
+    # to stay on the field's grid (a 2-digit year, a month, ...) - a mask that is wider than the grid lets off-grid values through
+    cal = {"tm_year": (1, 9999), "tm_mon": (1, 12), "tm_mday": (1, 31), "tm_hour": (0, 23), "tm_min": (0, 59), "tm_sec": (0, 61)}
+
+    def _ival(e: ast.expr) -> "tuple[int, int] | None":
+        if isinstance(e, ast.Name) and e.id in cal:
+            return cal[e.id]
+        if isinstance(e, ast.Constant) and isinstance(e.value, int) and not isinstance(e.value, bool):
+            return e.value, e.value
+        if isinstance(e, ast.BinOp):
+            k = ctx.consts.eval_in(fe, e.right) if not isinstance(e.right, ast.Constant) else e.right.value
+            a = _ival(e.left)
+            if isinstance(e.op, ast.Mod) and isinstance(k, int) and k > 0:
+                return (a[0], a[1]) if a is not None and 0 <= a[0] and a[1] < k else (0, k - 1)
+            if isinstance(e.op, ast.BitAnd) and isinstance(k, int) and k >= 0:
+                return (a[0], a[1]) if a is not None and 0 <= a[0] and a[1] <= k and (k & (k + 1)) == 0 else (0, k)
+            if a is None or not isinstance(k, int):
+                return None
+            if isinstance(e.op, ast.Sub):
+                return a[0] - k, a[1] - k
+            if isinstance(e.op, ast.Add):
+                return a[0] + k, a[1] + k
+        return None
+
+    for n in own_nodes(fe.node):
+        if isinstance(n, ast.BinOp) and isinstance(n.op, ast.LShift):
+            nm = [x.id for x in ast.walk(n.left) if isinstance(x, ast.Name) and x.id in names]
+            if len(nm) != 1:
+                continue
+            fld = names[nm[0]]
+            r3.instances += 1
+            r3.nontrivial += 1
+            iv = _ival(n.left)
+            lim = limits[fld] if fld != "second" else 61
+            if iv is None:
+                r3.notes.append(f"hex_from_dts: the image of `{norm(n.left)}` is not an interval the rule can compute (undecided)")
+                r3.ok({"dts_encoder_field": fld, "image": "undecided"})
+            elif iv[0] < 0 or iv[1] > lim:
+                r3.fail(f"hex_from_dts:{fld}:image", fe.loc(n), f"hex_from_dts shifts `{norm(n.left)}` into the {fld} field: its values range over {iv[0]}..{iv[1]}, but the {fld} grid is 0..{lim} - an out-of-range date is wrapped into a different, valid-looking timestamp instead of being reduced to (or refused as) a value on the grid")
+            else:
+                r3.ok({"dts_encoder_field": fld, "image": list(iv), "grid": [0, lim]})
     used = 0
     for fld, (mask, shift) in sorted(dec_fields.items()):
         r3.instances += 1
@@ -475,6 +516,75 @@ def check(ctx: Ctx) -> list[RuleResult]:
                         r5.ok({"site": f"{g.short}: {{{norm(n.value)[:40]}:{spec}}}", "bounded_by": why})
                     else:
                         r5.fail(f"{g.short}:{norm(n.value)[:40]}:{spec}", g.loc(n), f"`{{{norm(n.value)[:50]}:{spec}}}` in {g.short} has no range guard: a value that does not fit {width} hex digits is silently widened/wrapped into a different valid wire value")
+    # (ii) the other side of "no silent wrap": a raising range guard must not refuse a word the decoder reads as a number. For a
+    # two's-complement encoder (`x if x >= 0 else x + 2**N`) whose decoder never raises, the decoder's numeric domain is every N-bit
+    # word except its sentinel words, so the guard's interval has to cover the whole signed range bar those words
+    for e in ("temp",):
+        fe, fd = repo.func(f"{H}.hex_from_{e}"), repo.func(f"{H}.hex_to_{e}")
+        bits = None
+        for n in own_nodes(fe.node):
+            if isinstance(n, ast.BinOp) and isinstance(n.op, ast.Add):
+                k = ctx.consts.eval_in(fe, n.right)
+                if isinstance(k, int) and k > 0 and (k & (k - 1)) == 0 and k.bit_length() - 1 in (8, 16, 24, 32):
+                    bits = k.bit_length() - 1
+        if bits is None:
+            continue
+        # the decoder's own refusals narrow its numeric domain: structural checks (isinstance/len) do not; `q < C` / `q > C` on the
+        # quotient q = raw / K do; anything else leaves the domain unknown and this clause undecided
+        dom_lo, dom_hi = -(1 << (bits - 1)), (1 << (bits - 1)) - 1
+        ks = [ctx.consts.eval_in(fd, n.right) for n in own_nodes(fd.node) if isinstance(n, ast.BinOp) and isinstance(n.op, ast.Div)]
+        K = ks[0] if len(ks) == 1 and isinstance(ks[0], int) else None
+        unknown = False
+        for st in own_nodes(fd.node):
+            if isinstance(st, ast.If) and any(isinstance(b, ast.Raise) for b in st.body):
+                t = st.test
+                if all(isinstance(c, ast.Call) and norm(c.func) in ("isinstance", "len") or not isinstance(c, ast.Call) for c in ast.walk(t)) and any(isinstance(c, ast.Call) for c in ast.walk(t)):
+                    continue
+                if isinstance(t, ast.Compare) and len(t.ops) == 1 and isinstance(t.left, ast.Name) and K:
+                    c = ctx.consts.eval_in(fd, t.comparators[0])
+                    if isinstance(c, (int, float)):
+                        import math
+
+                        if isinstance(t.ops[0], ast.Lt):
+                            dom_lo = max(dom_lo, math.ceil(c * K - 1e-9))
+                            continue
+                        if isinstance(t.ops[0], ast.LtE):
+                            dom_lo = max(dom_lo, math.floor(c * K + 1e-9) + 1)
+                            continue
+                        if isinstance(t.ops[0], ast.Gt):
+                            dom_hi = min(dom_hi, math.floor(c * K + 1e-9))
+                            continue
+                        if isinstance(t.ops[0], ast.GtE):
+                            dom_hi = min(dom_hi, math.ceil(c * K - 1e-9) - 1)
+                            continue
+                unknown = True
+        if unknown:
+            r5.notes.append(f"hex_to_{e}: a refusal of the decoder is not an interval test; whether hex_from_{e}'s guard covers the decoder's numeric domain is undecided")
+            continue
+        sent = set()
+        for wire in _sentinels_dec(fd):
+            try:
+                w = int(ast.literal_eval(wire), 16)
+                sent.add(w - (1 << bits) if w >= 1 << (bits - 1) else w)
+            except Exception:  # noqa: BLE001
+                pass
+        for st in fe.node.body:
+            if isinstance(st, ast.If) and any(isinstance(b, ast.Raise) for b in st.body):
+                for c in ast.walk(st.test):
+                    if isinstance(c, ast.Compare) and len(c.ops) == 2 and all(isinstance(o, (ast.Lt, ast.LtE)) for o in c.ops) and isinstance(c.comparators[0], ast.Name):
+                        lo, hi = ctx.consts.eval_in(fe, c.left), ctx.consts.eval_in(fe, c.comparators[1])
+                        if not (isinstance(lo, int) and isinstance(hi, int)):
+                            continue
+                        lo_i = lo if isinstance(c.ops[0], ast.LtE) else lo + 1
+                        hi_i = hi if isinstance(c.ops[1], ast.LtE) else hi - 1
+                        r5.instances += 1
+                        r5.nontrivial += 1
+                        R_lo, R_hi = dom_lo, dom_hi
+                        refused = [v for v in list(range(R_lo, min(lo_i, R_hi + 1))) + list(range(max(hi_i + 1, R_lo), R_hi + 1)) if v not in sent]
+                        if refused:
+                            r5.fail(f"hex_from_{e}:guard-refuses-representable", fe.loc(st), f"hex_from_{e}'s range guard `{norm(st.test)[:60]}` admits {lo_i}..{hi_i}, but hex_to_{e} reads every {bits}-bit word in {dom_lo}..{dom_hi} except its sentinels as a number: {len(refused)} wire values (e.g. word {refused[0] & ((1 << bits) - 1):0{bits // 4}X}) decode to a number that can no longer be re-encoded")
+                        else:
+                            r5.ok({"encoder": f"hex_from_{e}", "guard": norm(st.test)[:60], "covers": f"the decoder's numeric domain {dom_lo}..{dom_hi} bar its sentinels"})
     out.append(r5)
 
     # ---- R6 ---------------------------------------------------------------------------
@@ -528,6 +638,14 @@ def check(ctx: Ctx) -> list[RuleResult]:
                 nd = 0 if len(n.args) < 2 else (n.args[1].value if isinstance(n.args[1], ast.Constant) else None)
                 if isinstance(nd, int) and not unknown_k and any((10 ** nd) % k for k in ks):
                     bad.append((n, f"round(.., {nd}) is coarser than the 1/{max(ks)} wire grid"))
+        # a clamp: the quotient re-assigned to a numeric constant under a test of itself - the constant is then the image of two words
+        for n in own_nodes(f.node):
+            if isinstance(n, ast.Assign) and len(n.targets) == 1 and isinstance(n.targets[0], ast.Name) and n.targets[0].id in tainted and isinstance(n.value, ast.Constant) and isinstance(n.value.value, (int, float)) and not isinstance(n.value.value, bool):
+                par = getattr(n, "parent", None)
+                if isinstance(par, ast.If) and _carries(par.test):
+                    bad.append((n, f"clamp: a wire word is decoded as the constant {n.value.value}, which is also what another word decodes to"))
+            if isinstance(n, ast.Call) and isinstance(n.func, ast.Name) and n.func.id in ("min", "max") and len(n.args) == 2 and any(_carries(a) for a in n.args) and any(isinstance(a, ast.Constant) for a in n.args):
+                bad.append((n, "clamp: min()/max() with a constant folds every word beyond it onto one value"))
         if bad:
             for n, why in bad:
                 r6.fail(f"{f.short}:{why.split()[0]}", f.loc(n), f"`{norm(n)[:70]}` in {f.short}: {why}: distinct wire words decode to the same value, so a value on the wire grid does not survive the round trip")
